@@ -40,6 +40,7 @@ theorem labeled_compl (ls : List Id) (p : Nat) (l : Id) (body : Stmt) :
     c.n = (b.n || b.bl.contains l) ∧ c.b = b.b ∧ c.c = b.c ∧ c.t = b.t ∧ (c.hasCl = true → b.hasCl = true) := by
   refine ⟨by simp [Stmt.compl], by simp [Stmt.compl], by simp [Stmt.compl], by simp [Stmt.compl], ?_⟩
   intro h
+  simp only [Stmt.compl] at h
   exact filter_nonempty _ _ h
 
 theorem labeled_ok (live : Bool) (ls : List Id) (p : Nat) (l : Id) (body : Stmt) (a : A)
